@@ -766,7 +766,7 @@ fn lean_item_tokens(rng: &mut Rng, depth: u32, out: &mut Vec<String>) {
         for _ in 0..12 {
             let mut tmp: Vec<String> = vec![];
             lean_opd_tokens(rng, depth, &mut tmp);
-            if matches!(tmp[0].as_str(), "r" | "fr" | "s" | "fs" | "g" | "w" | "fw" | "pe" | "fpe") {
+            if matches!(tmp[0].as_str(), "r" | "fr" | "s" | "fs" | "g" | "fg" | "w" | "fw" | "pe" | "fpe") {
                 out.push("b".into());
                 out.push(rng.pick(&["2", "1", "0", "10", "007", "3"]).to_string());
                 out.push(rng.pick(&["-", "-", "5", "0", "25", "50"]).to_string());
@@ -890,7 +890,12 @@ fn lean_opd_tokens(rng: &mut Rng, depth: u32, out: &mut Vec<String>) {
         return;
     }
     let n = rng.usize_below(4);
-    out.push("g".into());
+    if rng.chance(1, 4) {
+        out.push("fg".into());
+        out.push(crate::model::hex(rng.pick(&["title", "body", "t", "stop"]).as_bytes()));
+    } else {
+        out.push("g".into());
+    }
     out.push(rng.below(3).to_string());
     out.push(rng.pick(&["-", "-", "m", "x", "s"]).to_string());
     out.push(rng.below(3).to_string());
